@@ -1874,9 +1874,6 @@ func (schema *Schema) visitJSONArray(settings *schemaValidationSettings, value [
 	}
 
 	// "uniqueItems"
-	if sliceUniqueItemsChecker == nil {
-		sliceUniqueItemsChecker = isSliceOfUniqueItems
-	}
 	if v := schema.UniqueItems; v && !sliceUniqueItemsChecker(value) {
 		if settings.failfast {
 			return errSchema
@@ -2269,6 +2266,10 @@ var sliceUniqueItemsChecker SliceUniqueItemsChecker = isSliceOfUniqueItems
 // RegisterArrayUniqueItemsChecker is used to register a customized function
 // used to check if JSON array have unique items.
 func RegisterArrayUniqueItemsChecker(fn SliceUniqueItemsChecker) {
+	if fn == nil {
+		// nil restores the default; validation only reads the variable
+		fn = isSliceOfUniqueItems
+	}
 	sliceUniqueItemsChecker = fn
 }
 
